@@ -189,4 +189,28 @@ theorem schwartzReach_iff (hirr : ∀ a, ¬ B a a) (c : Cand) :
     · exact absurd h.symm hoc
     · exact h
 
+/-- the Schwartz set lies inside every non-empty dominating set (in particular inside the Smith set) -/
+theorem schwartzReach_sub_dominating (hasym : ∀ a b, B a b → ¬ B b a) {S : Cand → Prop}
+    (hS : Dominating cands B S) (hne : ∃ s, S s) {c : Cand} (hc : SchwartzReach cands B c) : S c := by
+  by_contra hnc
+  obtain ⟨s, hs⟩ := hne
+  have hsc : s ≠ c := by rintro rfl; exact hnc hs
+  have hb : B s c := hS.2 s c hs hc.1 hnc
+  have h1 : TransGen (BB cands B) s c := TransGen.single ⟨hS.1 s hs, hc.1, hsc, hb⟩
+  have h2 := hc.2 s (hS.1 s hs) hsc h1
+  -- a chain of "beats" steps from outside S into S is impossible
+  have key : ∀ a b, TransGen (BB cands B) a b → S b → S a := by
+    intro a b hab
+    induction hab with
+    | single h =>
+      intro hb'
+      by_contra ha
+      exact hasym _ _ (hS.2 _ _ hb' h.1 ha) h.2.2.2
+    | tail _ h ih =>
+      intro hb'
+      apply ih
+      by_contra ha
+      exact hasym _ _ (hS.2 _ _ hb' h.1 ha) h.2.2.2
+  exact hnc (key c s h2 hs)
+
 end VL.Graph
